@@ -34,6 +34,11 @@
 /* Assembly function, see src/arc/cmi_coroutine_context_*.asm */
 extern void cmi_coroutine_trampoline(void);
 
+#if defined(CIMBA_VERIF) && defined(__SANITIZE_ADDRESS__)
+extern void *cmi_verif_fiber_entry(struct cmi_coroutine *cp, void *context);
+extern void __asan_unpoison_memory_region(void const volatile *addr, size_t size);
+#endif
+
 /*
  * Linux-specific code to get the top and bottom of the current (main) stack
  */
@@ -136,6 +141,12 @@ void cmi_coroutine_context_init(struct cmi_coroutine *cp)
     cmb_assert_debug(cp->stack != NULL);
     cmb_assert_debug(cp->stack_base != NULL);
 
+#if defined(CIMBA_VERIF) && defined(__SANITIZE_ADDRESS__)
+    /* Verification hook: a restarted coroutine reuses a stack whose abandoned
+     * frames may still be poisoned */
+    __asan_unpoison_memory_region(cp->stack, (size_t)(cp->stack_base - cp->stack));
+#endif
+
     /* Make sure we can recognize if something overwrites the end of stack */
     cp->stack_limit = cp->stack;
     while (((uintptr_t)cp->stack_limit % 16u) != 0u) {
@@ -180,6 +191,10 @@ void cmi_coroutine_context_init(struct cmi_coroutine *cp)
     /* Place address of coroutine function in R12 */
     stkptr -= 8u;
     *(uint64_t *)stkptr = (uintptr_t)(cp->cr_function);
+#if defined(CIMBA_VERIF) && defined(__SANITIZE_ADDRESS__)
+    /* Verification hook: enter through a shim that completes the fiber switch */
+    *(uint64_t *)stkptr = (uintptr_t)cmi_verif_fiber_entry;
+#endif
 
     /* Place address of coroutine struct in R13 */
     stkptr -= 8u;
